@@ -5,4 +5,7 @@ cd "$(dirname "$0")"
 export GOFLAGS=-mod=mod GOPROXY=off GOSUMDB=off GOTOOLCHAIN=local
 mkdir -p bin evidence
 (cd engine && go build -o ../bin/symgo ./cmd/symgo)
+# trusted-base self tests: calendar model vs real time package (all days 0001..9999),
+# decimal SMT definitions vs shopspring/decimal evaluated by z3
+(cd engine && go test ./sym -run TestStub -count=1)
 echo setup ok
